@@ -133,6 +133,25 @@ def find_cli(rel):
     return out
 
 
+def unsafe_inventory():
+    """per source file of the workspace: occurrences of unsafe / get_unchecked* / copy_nonoverlapping / transmute-like
+    constructs (comments stripped).  Every listed site is hooked or modelled (C14); a new one is not."""
+    inv = []
+    for crate in sorted(os.listdir(REPO)):
+        src = os.path.join(REPO, crate, "src")
+        if not os.path.isdir(src): continue
+        for dp, _, fs in os.walk(src):
+            for f in sorted(fs):
+                if not f.endswith(".rs") or f == "verif.rs": continue
+                rel = os.path.relpath(os.path.join(dp, f), REPO)
+                text = strip_comments(read(rel))
+                c = (len(re.findall(r"\bunsafe\b", text)), len(re.findall(r"\bget_unchecked(?:_mut)?\b", text)),
+                     len(re.findall(r"\bcopy_nonoverlapping\b|\bcopy\s*\(|\bwrite_bytes\b", text)),
+                     len(re.findall(r"\btransmute\b|\bfrom_raw_parts(?:_mut)?\b|\bunwrap_unchecked\b|\bset_len\b|\bfrom_utf8_unchecked\b", text)))
+                if any(c): inv.append((rel, c))
+    return sorted(inv)
+
+
 def coq_opt(v):
     return "None" if v is None else "Some %d" % v
 
@@ -229,6 +248,11 @@ def main(out_path, report_path):
         out.append("Definition cli_min_refuses_w_le_m : bool := %s." % ("true" if cli["refusals"]["w_le_m"] else "false"))
         out.append("Definition cli_min_refuses_m_ge : option N := %s." % coq_opt(cli["refusals"]["m_ge"]))
         out.append("Definition cli_whole_cgr_refuses_counts : bool := %s." % ("true" if cli["refusals"]["whole_cgr_counts"] else "false"))
+    inv = unsafe_inventory()
+    report["items"]["unsafe_inventory"] = {"source": "all crates", "kind": "counts of unsafe constructs per file"}
+    out.append("(* file -> (unsafe, get_unchecked*, raw copies, transmute-like) *)")
+    out.append("Definition unsafe_inventory : list (list N * (N * N * N * N)) :=\n  [%s]." % ";\n   ".join(
+        "(%s (* %s *), (%d, %d, %d, %d))" % ((coq_str(f), f) + c) for f, c in inv))
     text = "\n".join(out) + "\n"
     old = open(out_path).read() if os.path.exists(out_path) else None
     report["changed"] = (old != text)
